@@ -3136,7 +3136,10 @@ impl Fsm {
                     let mut global = get_global!(datamodel);
                     let session_id = global.session_id;
 
-                    let actions = global.actions.get_copy();
+                    // The child gets its own map of actions: it registers its own "In" function there.
+                    let actions = ActionWrapper {
+                        actions: Arc::new(Mutex::new(global.actions.get_map_copy())),
+                    };
                     global
                         .executor
                         .as_mut()
@@ -3156,7 +3159,10 @@ impl Fsm {
         } else {
             let mut global = get_global!(datamodel);
             let session_id = global.session_id;
-            let actions = global.actions.get_copy();
+            // The child gets its own map of actions: it registers its own "In" function there.
+            let actions = ActionWrapper {
+                actions: Arc::new(Mutex::new(global.actions.get_map_copy())),
+            };
             global.executor.as_mut().unwrap().execute_with_data(
                 src.to_string().as_str(),
                 actions,
